@@ -39,6 +39,10 @@ func handleSetRange(params internal.HandlerFuncParams) ([]byte, error) {
 	newStr := params.Command[3]
 
 	if !keyExists {
+		// SETRANGE on a key that does not exist creates it with the new string.
+		if err = params.SetValues(params.Context, map[string]interface{}{key: newStr}); err != nil {
+			return nil, err
+		}
 		return []byte(fmt.Sprintf(":%d\r\n", len(newStr))), nil
 	}
 
